@@ -18,6 +18,7 @@
 import GLua.Basic
 import GLua.Generated.StrIndex
 import GLua.Spec.StrLib
+import GLua.Spec.MathIEEE
 
 namespace GLua.StrModel
 open GLua GLua.Generated
@@ -275,14 +276,67 @@ def mathMod (lhs rhs : Int) : Int :=
 /-- 64-bit two's complement wrap-around of Go `int` arithmetic. -/
 def wrap64 (x : Int) : Int := (x + 9223372036854775808) % 18446744073709551616 - 9223372036854775808
 
-/-- mathRandom, two arguments (after fixes/C15-random-empty-interval.diff); `intn` is `rand.Intn`
-    (trusted: `0 ≤ intn k < k` for `k > 0`, panic for `k ≤ 0`). -/
-def mathRandom2 (intn : Int → Int) (m n : Int) : R Int :=
+/-- what `math.random(m, n)` pushes: `LNumber(int)` on the ordinary path, a float64 (bit pattern) on the wide path -/
+inductive RandOut where
+  | int (i : Int)
+  | num (bits : Nat)
+deriving Repr, DecidableEq
+
+/-- the wide path of mathRandom (after fixes/C15-random-interval-overflow.diff), Lua 5.1's own formula:
+    `math.Floor(r.Float64()*(float64(max)-float64(min)+1)) + float64(min)`; `rf` = `r.Float64()`.
+    The float64 operators are the IEEE operations of GLua/Spec/MathIEEE.lean. -/
+def mathRandom2Wide (rf : Nat) (m n : Int) : Nat :=
+  IEEE.add (IEEE.floor (IEEE.mul rf (IEEE.add (IEEE.sub (IEEE.ofInt n) (IEEE.ofInt m)) (IEEE.oneBits false))))
+    (IEEE.ofInt m)
+
+/-- mathRandom, two arguments (after fixes/C15-random-empty-interval.diff and C15-random-interval-overflow.diff):
+    `min, max := CheckInt(1), CheckInt(2); if min > max { ArgError }; if n := max - min + 1; n > 0 { Intn(n) + min }
+    else { the float64 formula }`.  `intn` is `rand.Intn` (trusted: `0 ≤ intn k < k` for `k > 0`), `rf` is
+    `rand.Float64()` (trusted: a float64 in [0, 1)). -/
+def mathRandom2 (intn : Int → Int) (rf : Nat) (m n : Int) : R RandOut :=
+  if m > n then .error (.luaError "interval is empty")
+  else if wrap64 (wrap64 (n - m) + 1) > 0 then .ok (.int (wrap64 (intn (wrap64 (wrap64 (n - m) + 1)) + m)))
+  else .ok (.num (mathRandom2Wide rf m n))
+
+/-- is the pushed number an integer of [m, n] -/
+def RandOut.inRange (m n : Int) : RandOut → Bool
+  | .int i => m ≤ i ∧ i ≤ n
+  | .num b =>
+    match IEEE.toIntTrunc b with
+    | some v => IEEE.floor b = b ∧ m ≤ v ∧ v ≤ n
+    | none => false
+
+/-- the two-argument path BEFORE fixes/C15-random-interval-overflow.diff (`max := CheckInt(2) + 1;
+    if max-min <= 0 { ArgError }; Intn(max-min) + min`): `max - min` overflows for a span ≥ 2^63 — kept to state
+    what was wrong (Props.C15.random_before_fix_fails). -/
+def mathRandom2Old (intn : Int → Int) (m n : Int) : R Int :=
   let min := m
   let max := wrap64 (n + 1)
   let k := wrap64 (max - min)
   if k ≤ 0 then .error (.luaError "interval is empty")
   else .ok (wrap64 (intn k + min))
+
+/-! ### integer arguments given as strings -/
+
+/-- `LState.CheckInt(n)` / `OptInt(n, d)` on an `LString` argument, after
+    fixes/C15-int-arg-no-string-coercion.diff: `int(ls.CheckNumber(n))`, where `CheckNumber` converts a string
+    through `parseNumber` (Lua §2.2.1).  `some i`: the numeral denotes the integer i; `none`: not a numeral —
+    `ls.TypeError(n, LTNumber)`.
+    MODELLED for decimal numerals `[ws][±]digits[.digits][e[±]digits][ws]` with an INTEGRAL value (`strtod` of
+    GLua/Spec/MathIEEE.lean, then Go's `int(float64)`) and for strings that are a numeral in no reading; the
+    harness sends nothing else (hexadecimal numerals and the rest of `parseNumber` are C16's subject, a
+    non-integral or out-of-int64 value is platform-defined in C Lua as well). -/
+def checkIntStr (b : Bytes) : Option Int :=
+  match IEEE.strtod b with
+  | some bits =>
+    match IEEE.decode bits with
+    | .fin _ m e => if IEEE.isIntDy m e then IEEE.toIntTrunc bits else none
+    | _ => none
+  | none => none
+
+/-- the same BEFORE the fix: `CheckInt` / `OptInt` accepted an `LNumber` only, every string was a type error —
+    kept to state what was wrong (Props.C15.int_arg_before_fix_fails) -/
+def checkIntStrOld (_b : Bytes) : Option Int := none
 
 /-- mathRandom, one argument. -/
 def mathRandom1 (intn : Int → Int) (n : Int) : R Int :=
